@@ -197,6 +197,9 @@ ini_config_types: Final[dict[str, _INI_PARSER_CALLABLE]] = {
     "untyped_calls_exclude": lambda s: validate_package_allow_list(
         [p.strip() for p in split_commas(s)]
     ),
+    "deprecated_calls_exclude": lambda s: validate_package_allow_list(
+        [p.strip() for p in split_commas(s)]
+    ),
     "enable_incomplete_feature": lambda s: [p.strip() for p in split_commas(s)],
     "disable_error_code": lambda s: [p.strip() for p in split_commas(s)],
     "enable_error_code": lambda s: [p.strip() for p in split_commas(s)],
@@ -222,6 +225,7 @@ toml_config_types.update(
         "always_true": try_split,
         "always_false": try_split,
         "untyped_calls_exclude": lambda s: validate_package_allow_list(try_split(s)),
+        "deprecated_calls_exclude": lambda s: validate_package_allow_list(try_split(s)),
         "enable_incomplete_feature": try_split,
         "disable_error_code": lambda s: try_split(s),
         "enable_error_code": lambda s: try_split(s),
